@@ -1,12 +1,16 @@
 #!/bin/sh
-# try_patch.sh PATCH PROP... : apply PATCH to /repo, run the quick checks, undo
+# try_patch.sh PATCH PROP... : apply PATCH to a scratch worktree of /repo HEAD (never to /repo itself), run the checks with --repo, undo
 P="$1"; shift
-cd /repo || exit 2
-git apply --check "$P" || { echo "PATCH DOES NOT APPLY"; exit 3; }
-git apply "$P"
-for prop in "$@"; do
-  /verif/check "$prop" --no-evidence > /tmp/try_patch_$prop.out 2>&1; rc=$?
-  echo "== $prop exit=$rc"; grep -E "VIOLATION|ANALYSIS-ERROR|rule " /tmp/try_patch_$prop.out | head -8
+W=/tmp/verif_try
+HEAD=$(git -C /repo rev-parse HEAD)
+if [ ! -d $W ] || [ "$(git -C $W rev-parse HEAD 2>/dev/null)" != "$HEAD" ]; then
+  git -C /repo worktree remove --force $W 2>/dev/null
+  git -C /repo worktree add -q --detach $W $HEAD || exit 2
+fi
+cd $W || exit 2
+git checkout -q -- . ; git apply "$P" 2>/dev/null || { echo "PATCH DOES NOT APPLY"; exit 3; }
+for p in "$@"; do
+  /verif/check $p --repo $W --no-evidence > /tmp/tp_$p.out 2>&1; rc=$?
+  echo "== $p exit=$rc"; grep -A3 "^VIOLATION\|^ANALYSIS-ERROR" /tmp/tp_$p.out | grep -v "^--" | head -12
 done
-git checkout -- . 
-git status --short | head -3
+git checkout -q -- .
